@@ -84,6 +84,17 @@ CHECKS = {
         note="PARTIAL: RequestContext.to_policy_values is oslo.context (exercised only).",
         technique="Lean 4 proof (case analysis, unbounded in scope list and tree) + exhaustive correspondence table",
         design="§7 C08"),
+    'C13': dict(
+        text="Theorems: exact - check_rules() is false iff some rule references an undefined rule or can reach a reference "
+             "cycle, stated on the reference graph (all rule: leaves incl. under not), both directions, for all rule sets: the "
+             "path-sensitive DFS with fuel |rules|+1 finds a repeat iff some walk repeats (pigeonhole on Nodup walks), so "
+             "diamonds are not reported; exact_skip; terminates - when nothing is reported every rule evaluates within "
+             "|rules|+1 levels of reference nesting for any leaves and default rule; validator exit status. Correspondence: "
+             "all small rule graphs + random graphs against check_rules and an independent graph analysis, clean graphs "
+             "evaluated; policy files through the real _validate_policy.",
+        note="yaml.safe_load in the validator is library behaviour.",
+        technique="Lean 4 proof (DFS exactness + pigeonhole; termination from absence of reported cycles) + differential correspondence",
+        design="§7 C13"),
     'C14': dict(
         text="Theorems: leaf_decides - a role or generic leaf returns a decision for every classification of the left side by "
              "literal_eval, every target and JSON-like credentials (string roles), well-formed placeholders; enforce_documented - "
